@@ -25,7 +25,7 @@ type xmpSpec struct {
 }
 
 func checkC13(p *Prog, r *Report) {
-	r.Explain("The tokenizer's behaviour over all packets (look-ahead windows, quoting, white space) is a run-time matter and is not decided. Decided: NSTBL — the namespace and name tables are mutually inverse over the declared constants: IdentifyNamespace(String(ns)) == ns and IdentifyName(String(n)) == n for every declared constant, by constant folding of the tables (a property whose name is missing from either table is silently dropped); XDISPATCH — for every property of the independent table spec/xmp_props.json, the packet spelling is identified to a name constant, the namespace prefix dispatches in (*XMP).parser to the struct of that namespace, and that struct's parse method has a case for the constant that stores into the field(s) the table assigns; FORMS — attribute form and element form reach the per-namespace parsers through the same function: every call of a parse method is in (*XMP).parser, and in readTag/readSeqTags every successful readAttribute and readTagValue is followed by xmp.parser on every path; QUOTE — wherever the tokenizer compares a byte with a quote constant the byte is at a constant position (the opening quote), and the byte read there is what the search for the closing quote looks for (bytes.IndexByte needle or comparison operand): a value delimited by one quote character may contain the other; RELIDX — an index returned by a search in x[a:] is relative to a: wherever it (or a sum containing it) indexes or slices x itself, a is part of the sum; WINFIT — every look-ahead loop of the XMP reader (Peek(s) with s growing by a constant step) reaches, within the reader's buffer size, a window of at least 1027 bytes: a 1024-byte value with its delimiters is readable before ErrBufferFull ends the growth; ROOTSKIP — readRootTag keeps scanning when ReadSlice reports a full buffer without the start of the root element (bytes before the root element are skipped).")
+	r.Explain("The tokenizer's behaviour over all packets (look-ahead windows, quoting, white space) is a run-time matter and is not decided. Decided: NSTBL — the namespace and name tables are mutually inverse over the declared constants: IdentifyNamespace(String(ns)) == ns and IdentifyName(String(n)) == n for every declared constant, by constant folding of the tables (a property whose name is missing from either table is silently dropped); XDISPATCH — for every property of the independent table spec/xmp_props.json, the packet spelling is identified to a name constant, the namespace prefix dispatches in (*XMP).parser to the struct of that namespace, and that struct's parse method has a case for the constant that stores into the field(s) the table assigns; FORMS — attribute form and element form reach the per-namespace parsers through the same function: every call of a parse method is in (*XMP).parser, and in readTag/readSeqTags every successful readAttribute and readTagValue is followed by xmp.parser on every path; QUOTE — wherever the tokenizer compares a byte with a quote constant the byte is at a constant position (the opening quote), and the byte read there is what the search for the closing quote looks for (bytes.IndexByte needle or comparison operand): a value delimited by one quote character may contain the other; RELIDX — an index returned by a search in x[a:] is relative to a: wherever it (or a sum containing it) indexes or slices x itself, a is part of the sum; XTOTAL — every index and slice in the functions of package xmp reachable from ParseXmp is proved in range by E3 with no credit for ParseXmp's recover frame: a panic at the edge of a look-ahead window turns a well-formed packet into an error (for C01 the same panic is contained; for this property it is a lost value); WINFIT — every look-ahead loop of the XMP reader (Peek(s) with s growing by a constant step) reaches, within the reader's buffer size, a window of at least 1027 bytes: a 1024-byte value with its delimiters is readable before ErrBufferFull ends the growth; ROOTSKIP — readRootTag keeps scanning when ReadSlice reports a full buffer without the start of the root element (bytes before the root element are skipped).")
 	r.Trusted("spec/xmp_props.json (written from the XMP specification)", "bufio.ReadSlice returns ErrBufferFull when the delimiter is not within one buffer")
 	fd := &folder{p: p}
 	ruleRoundTrip(p, r, fd, "NSTBL", "xmp/xmpns", "Namespace", "String", "IdentifyNamespace", true)
@@ -37,6 +37,8 @@ func checkC13(p *Prog, r *Report) {
 	r.Floor("QUOTE", 1)
 	ruleWinFit(p, r)
 	r.Floor("WINFIT", 2)
+	ruleXTotal(p, r)
+	r.Floor("XTOTAL", 40)
 	ruleRelIdx(p, r) // no floor: rewriting the one search as a loop removes the instance without breaking anything
 	r.Floor("NSTBL", 100)
 	r.Floor("XDISPATCH", 40)
@@ -654,6 +656,40 @@ func ruleWinFit(p *Prog, r *Report) {
 		r.Undecided("WINFIT", "xmp | buffer size", "-", "no bufio.NewReaderSize with a constant size found in package xmp")
 		return
 	}
+	// a caller's bufio.Reader is reused when its Size() is not below a threshold: the smallest buffer the reader can
+	// end up with is the smaller of that threshold and the size it allocates itself
+	for _, f := range pkgFns(sp, p) {
+		eachInstr(f, func(_ *ssa.BasicBlock, _ int, in ssa.Instruction) {
+			bo, ok := in.(*ssa.BinOp)
+			if !ok {
+				return
+			}
+			for _, pr := range [][2]ssa.Value{{bo.X, bo.Y}, {bo.Y, bo.X}} {
+				c, ok := pr[0].(*ssa.Call)
+				if !ok || !isCallTo(&c.Call, "(*bufio.Reader).Size") {
+					continue
+				}
+				k, ok := constInt(pr[1])
+				if !ok {
+					continue
+				}
+				// Size() < K / Size() <= K-1 / K > Size(): readers of at least K bytes are kept
+				switch {
+				case bo.Op == token.LSS && pr[0] == bo.X, bo.Op == token.GTR && pr[0] == bo.Y:
+				case bo.Op == token.LEQ && pr[0] == bo.X, bo.Op == token.GEQ && pr[0] == bo.Y:
+					k++
+				case bo.Op == token.GEQ && pr[0] == bo.X, bo.Op == token.LEQ && pr[0] == bo.Y:
+				case bo.Op == token.GTR && pr[0] == bo.X, bo.Op == token.LSS && pr[0] == bo.Y:
+					k++
+				default:
+					continue
+				}
+				if k < B {
+					B = k
+				}
+			}
+		})
+	}
 	for _, f := range pkgFns(sp, p) {
 		loops := findLoops(f)
 		eachCall(f, func(site ssa.CallInstruction) {
@@ -675,7 +711,7 @@ func ruleWinFit(p *Prog, r *Report) {
 			if !inLoop {
 				return
 			}
-			key := fmt.Sprintf("%s | growing Peek window reaches %d bytes within the %d-byte buffer", fnName(f), need, B)
+			key := fmt.Sprintf("%s | growing Peek window reaches %d bytes within the reader's smallest buffer", fnName(f), need)
 			at := p.posStr(instrPos(site))
 			ind, ok := inductionOf(ph)
 			if !ok || ind.Step <= 0 {
@@ -699,6 +735,37 @@ func ruleWinFit(p *Prog, r *Report) {
 			}
 		})
 	}
+}
+
+// ruleXTotal: the XMP tokenizer and parsers never rely on ParseXmp's recover.
+func ruleXTotal(p *Prog, r *Report) {
+	entry := p.Func("xmp", "", "ParseXmp")
+	if entry == nil {
+		r.Undecided("XTOTAL", "xmp.ParseXmp", "-", "unresolved anchor")
+		return
+	}
+	e := p.E3()
+	n := 0
+	for _, f := range p.LibReachDirect([]*ssa.Function{entry}) {
+		g := f
+		for g.Parent() != nil {
+			g = g.Parent()
+		}
+		if g.Pkg == nil || !strings.HasPrefix(relPkg(g.Pkg.Pkg.Path()), "xmp") {
+			continue
+		}
+		for _, ob := range e.fnB(f).obs {
+			n++
+			key := fnName(f) + " | " + ob.Key
+			at := p.posStr(instrPos(ob.In))
+			if ob.OK {
+				r.OK("XTOTAL", key, at, ob.By)
+			} else {
+				r.Bad("XTOTAL", key, at, ob.Detail+" — inside ParseXmp this panic is recovered and returned as an error, so a well-formed packet that reaches it loses this and every later property")
+			}
+		}
+	}
+	r.Extra("xtotal_sites", n)
 }
 
 var _ = types.Typ
